@@ -174,11 +174,14 @@ def audit_axioms(prop):
 
 def theorem_statements(prop, names):
     """first line of each theorem statement (for the evidence samples)"""
-    path = os.path.join(LEAN, "XPathV", "Theorems", prop + ".lean")
     out = {}
-    if not os.path.exists(path):
+    src = ""
+    for path in (os.path.join(LEAN, "XPathV", "Lemmas", prop + "Base.lean"),
+                 os.path.join(LEAN, "XPathV", "Theorems", prop + ".lean")):
+        if os.path.exists(path):
+            src += open(path, encoding="utf-8").read() + "\n"
+    if not src:
         return out
-    src = open(path, encoding="utf-8").read()
     for n in names:
         short = n.split(".")[-1]
         m = re.search(r"theorem\s+" + re.escape(short) + r"\b(.*?):=", src, re.S)
